@@ -13,7 +13,7 @@ Every program exposes entry functions with scalar parameters plus a set of argum
 from __future__ import annotations
 
 import random
-from dataclasses import dataclass, field
+from dataclasses import dataclass, field, replace
 
 LIMIT = 10_000
 BIG = 500_000_000
@@ -142,7 +142,7 @@ class TypedGen:
 			'enumerate': True, 'closures': True, 'lambdas': True, 'try': True, 'classes': True, 'enums': True, 'floats': True,
 			'str_slice': True, 'list_slice': True, 'comps': True, 'tuples': True, 'dicts': True, 'props': True, 'classmethods': True, 'inherit': True,
 			'defaults': True, 'str_methods': True, 'while': True, 'list_methods': True, 'nested_ternary': True,
-			'destructure_literal': True, 'str_lit_concat': True,
+			'destructure_literal': True, 'str_lit_concat': True, 'range_bound_mutation': False,
 		}
 		if opts:
 			self.o.update(opts)
@@ -591,7 +591,8 @@ class TypedGen:
 		self.declare(scope, INT, ind)
 
 	def block(self, scope: dict, ind: str, d: int, ret: tuple | None, in_loop: bool, n: int | None = None) -> None:
-		inner = dict(scope)
+		# a block may not run: what it learns (keys stored, elements appended, intervals) lives on copies and is merged back conservatively
+		inner = {k: replace(v) for k, v in scope.items()}
 		start = len(self.lines)
 		for _ in range(n or self.r.choice([1, 2, 2, 3])):
 			self.stmt(inner, ind, d, ret, in_loop)
@@ -625,10 +626,8 @@ class TypedGen:
 		x = r.random()
 		lists = [v for v in scope.values() if v.type == ('list', INT)]
 		dicts = [v for v in scope.values() if v.type == ('dict', STR, INT)]
-		inner = dict(scope)
-		# everything assigned inside a loop may have any stored value afterwards
-		for v in inner.values():
-			pass
+		# the body may run zero times: it works on copies, merged back conservatively below
+		inner = {k: replace(v) for k, v in scope.items()}
 		if x < 0.35:
 			i = self.fresh(['i', 'j', 'r'], scope)
 			y = r.random()
@@ -650,6 +649,13 @@ class TypedGen:
 			self.f.add('for-range')
 			self.emit(f'{ind}for {i} in {head}:')
 			inner[i] = Var(i, INT, lo, hi, mutable=False)
+			if not self.o['range_bound_mutation']:
+				# Python evaluates the bound once, the emitted for statement re-evaluates it every iteration (open finding
+				# range-bound-reevaluated-each-iteration): whatever the bound mentions is read-only in the body
+				import re as _re
+				for name, v in list(inner.items()):
+					if name != i and _re.search(rf'\b{name}\b', head):
+						inner[name] = replace(v, mutable=False, fresh_obj=False)
 		elif x < 0.55 and lists:
 			e = self.fresh(['x', 'e', 'item'], scope)
 			lst = r.choice(lists)
@@ -705,6 +711,8 @@ class TypedGen:
 				scope[name].lo, scope[name].hi = -LIMIT, LIMIT
 			if name in scope and v.type[0] in ('list', 'str') and scope[name].mutable:
 				scope[name].minlen = min(scope[name].minlen, v.minlen)
+			if name in scope and v.type[0] == 'dict':
+				scope[name].keys = tuple(k for k in scope[name].keys if k in v.keys)
 
 	def container_stmt(self, scope: dict, ind: str) -> None:
 		r = self.r
@@ -858,8 +866,14 @@ class TypedGen:
 			text = self.r.choice(cands).name
 		if text is None:
 			text = self.expr(ret, scope, 2)
+		for _ in range(12):
+			if text is not None:
+				break
+			text = self.expr(ret, scope, 0)
 		if text is None:
-			text = self.expr(ret, scope, 0) or 'None'
+			# a well-typed function never returns None for a container / object type: fall back to a variable of that type
+			assert cands, f'no expression of type {ret}'
+			text = self.r.choice(cands).name
 		if ret[0] == 'tuple' and self.r.random() < 0.4 and text.startswith('('):
 			text = text[1:-1]
 			self.f.add('return-bare-tuple')
